@@ -8,6 +8,11 @@ package http3
 //                unknown / forbidden frames and streams
 //   raw-client   scripted raw QUIC server against the real Transport: the same, mirrored
 //   real-server  clean exchanges through the unchanged Server.ServeListener path
+//   early-reject 1..3 uploads that the server answers early (431 by decoded field-section size or
+//                by HEADERS frame length with a small Server.MaxHeaderBytes, 400 / 413 from a
+//                handler that does not read the body) while the client is still sending bodies
+//                around and above the stream / connection window (or with MaxIncomingStreams = N),
+//                then a valid exchange on the same connection
 //   faults       every single-fault map over all datagrams of an exchange (1-dimension
 //                deviations quick, pairs thorough)
 //   faults-k2    every 2-fault map over the first N datagrams of each direction
@@ -127,6 +132,15 @@ func TestVerifC18(t *testing.T) {
 				cases = append(cases, c18Case{Msg: m, Seed: seed(e)})
 			}
 			return cases, fmt.Sprintf("every valid message that deviates from the default message in <= %d of %d dimensions %v (sizes %v), no network faults", k, len(c18DimNames), c18DimNames, c18DimSizes)
+		}),
+		c18Part(t, "early-reject", false, func(e explore.Env) ([]c18Case, string) {
+			// the valid message that follows the rejected uploads on the same connection
+			follow := []c18Msg{{}, {ReqBody: 4}}
+			if e.Thorough() {
+				follow = append(follow, c18Msg{RespBody: 4}, c18Msg{Conc: 1}, c18Msg{ReqBody: 4, Conc: 1}, c18Msg{Kind: 1}, c18Msg{SLog: 1}, c18Msg{CLog: 1}, c18Msg{ReqTr: 1}, c18Msg{Gzip: 1}, c18Msg{ReqBody: 4, Rd: 1})
+			}
+			cases := c18RejCases(follow, seed(e))
+			return cases, fmt.Sprintf("every history of N = 1..3 uploads that the server answers early - kinds %v - while the client is still sending their body (sizes per server configuration %v: %v; Server.MaxHeaderBytes = %d), one after the other or all at once, followed at once or 3 s (virtual) later on the same connection by each of %d valid message(s) %v, under the harness accept loop and under Server.ServeListener; no network faults", c18RejKinds, c18RejCfgs, c18RejBodies, c18RejMaxHeaderBytes, len(follow), follow)
 		}),
 		c18Part(t, "faults", true, func(e explore.Env) ([]c18Case, string) {
 			var cases []c18Case
@@ -291,7 +305,7 @@ func TestVerifC18(t *testing.T) {
 		}),
 	}
 	// cheap, always-complete parts first; the fault enumerations use what is left of the deadline
-	order := []string{"lattice", "raw", "raw-client", "real-server", "faults", "faults-k2"}
+	order := []string{"lattice", "raw", "raw-client", "real-server", "early-reject", "faults", "faults-k2"}
 	var sorted []explore.Part
 	for _, n := range order {
 		for _, p := range parts {
